@@ -210,25 +210,40 @@ func checkC18(c *Check) {
 				if !ok || Sym(st.Addr) != "p:u" {
 					return
 				}
-				// stores whose value can come from the integer parse of the text before the "m" suffix
-				milli := sliceHas(st.Val, map[ssa.Value]bool{}, 0, func(x ssa.Value) bool {
-					cv, isC := x.(*ssa.Call)
-					if !isC {
-						return false
+				// one judgement per way the stored value can come about (a phi of the two notations, possibly each computed
+				// by a new helper, is two ways: the float arithmetic of the "1.5" notation is not on the "<n>m" way)
+				var ways []ssa.Value
+				var split func(v ssa.Value, d int)
+				split = func(v ssa.Value, d int) {
+					if d > 6 {
+						ways = append(ways, v)
+						return
 					}
-					full := calleeFull(cv)
-					if full != "strconv.ParseUint" && full != "strconv.ParseInt" && full != "strconv.Atoi" {
-						return false
+					if ph, isPhi := v.(*ssa.Phi); isPhi {
+						for _, e := range ph.Edges {
+							split(e, d+1)
+						}
+						return
 					}
-					a := Sym(cv.Call.Args[0])
-					return strings.Contains(a, "strings.TrimSuffix(") && strings.Contains(a, `"m"`)
-				})
-				if !milli {
-					return
+					if hc, k := callOf(v); hc != nil {
+						if h := newHelperCallee(hc); h != nil {
+							if k < 0 {
+								k = 0
+							}
+							if rs := helperReturns(h, k); len(rs) > 0 {
+								for _, r := range rs {
+									split(r, d+1)
+								}
+								return
+							}
+						}
+					}
+					ways = append(ways, v)
 				}
-				nm++
-				fl := floatInSlice(st.Val, map[ssa.Value]bool{}, 0)
-				c.Ob("R2", "milli-CPU amounts are carried as integers", st.Pos(), fl == "", "the value written for the \"<n>m\" notation passes through "+fl+": some amounts come out one unit short of what was declared")
+				split(st.Val, 0)
+				for _, way := range ways {
+					c.milliWay(st, way, &nm)
+				}
 			})
 		}
 		c.Ob("R2", "milli-CPU notation is recognised", cq.Pos(), nm >= 1, "no store of a value parsed from the text before the \"m\" suffix")
@@ -1134,4 +1149,27 @@ func (c *Check) accessorsKeepNoState(rule string) {
 	if n < 4 {
 		c.Fail("C18-%s lost instances", rule)
 	}
+}
+
+// milliWay: one way the value stored into the cpu quantity can come about; if it is the integer parse of the text
+// before the "m" suffix, it must not pass through floating point.
+func (c *Check) milliWay(st *ssa.Store, way ssa.Value, nm *int) {
+	milli := sliceHas(way, map[ssa.Value]bool{}, 0, func(x ssa.Value) bool {
+		cv, isC := x.(*ssa.Call)
+		if !isC {
+			return false
+		}
+		full := calleeFull(cv)
+		if full != "strconv.ParseUint" && full != "strconv.ParseInt" && full != "strconv.Atoi" {
+			return false
+		}
+		a := Sym(cv.Call.Args[0])
+		return strings.Contains(a, "strings.TrimSuffix(") && strings.Contains(a, `"m"`)
+	})
+	if !milli {
+		return
+	}
+	*nm++
+	fl := floatInSlice(way, map[ssa.Value]bool{}, 0)
+	c.Ob("R2", "milli-CPU amounts are carried as integers", st.Pos(), fl == "", "the value written for the \"<n>m\" notation passes through "+fl+": some amounts come out one unit short of what was declared")
 }
